@@ -3,7 +3,7 @@
 # Confirms the seeded change independently (tests pass, demo fails with / passes without) in the scratch worktree
 # /tmp/seed/vw and runs the checks against that worktree.
 D=$1; shift
-W=/tmp/seed/vw
+W=${W:-/tmp/seed/vw}
 git -C $W checkout -q -- . && git -C $W clean -fdq
 git -C $W apply --check $D/patch.diff || { echo "PATCH DOES NOT APPLY"; exit 9; }
 ( cd $W && /venv/bin/python $D/demo.py >/dev/null 2>&1 ); echo "demo without change: exit $?"
